@@ -732,6 +732,15 @@ class Evaluator:
             from guards import bool_facts
             self.alt_facts.setdefault(res, {}).update({v: bool_facts(args[0][2][0], True), args[1]: bool_facts(args[0][2][0], False)})
             return res
+        if model == "Option::map_or" and len(args) == 3 and args[0][0] == "call" and args[0][1] == "checked_add" \
+                and len(args[0][2]) == 2:
+            # a.checked_add(b).map_or(d, |e| e.min(d)) is min(a (+) b, d): an overflowing sum is clamped to d either way
+            e_ = ("bound", "checked_add_payload")
+            body_ = self.closure_ret(ctx, args[2], [e_])
+            if body_[0] == "call" and body_[1] == "min" and len(body_[2]) == 2:
+                for x_, y_ in ((body_[2][0], body_[2][1]), (body_[2][1], body_[2][0])):
+                    if x_ == e_ and y_ == args[1]:
+                        return ("call", "min", (("call", "saturating_add", args[0][2]), args[1]))
         if model == "Option::map_or" and len(args) == 3:
             # opt.map_or(d, f) over an Option whose alternatives are visible (`cond.then_some(v)`, Some{..} | None):
             # d, or f of the payload
@@ -844,6 +853,10 @@ class Evaluator:
                 return ("call", "clone", (self.payload(ctx, t[2][0]),))
             if m == "Option::filter" and len(t[2]) == 2:
                 return self.payload(ctx, t[2][0])
+            if m == "checked_sub" and len(t[2]) == 2:
+                return mk_bin("Sub", t[2][0], t[2][1])    # Some(a - b) exactly when b <= a
+            if m == "checked_add" and len(t[2]) == 2:
+                return mk_bin("Add", t[2][0], t[2][1])    # Some(a + b) exactly when the sum does not overflow
             if m == "bool::then" and len(t[2]) == 2:
                 return self.closure_ret(ctx, t[2][1], [])
             if m == "bool::then_some" and len(t[2]) == 2:
